@@ -361,6 +361,12 @@ func c01Execute(w *World, sc c01Scenario, choices []int) *c01Exec {
 }
 
 func runC01(c *core.Ctx, r *core.Result) {
+	if (c.Only == "" && c.Shard == 0) || strings.HasPrefix(c.Only, "upgrade-history/") {
+		c01UpgradeHistory(c, r)
+		if c.Only != "" {
+			return
+		}
+	}
 	bound := 2
 	if c.Thorough() {
 		bound = 3
